@@ -71,7 +71,9 @@ package rtph264
 //@   ensures[C06] ret[0].Marker == marker && ret[0].PayloadType == e.PayloadType && ret[0].SSRC == *e.SSRC
 //@   modifies e.sequenceNumber, fresh
 //@   loop 1
-//@     invariant 0 <= _i && _i <= len(nalus) && pos == lenagg(nalus, _i) && len(payload) == lenagg(nalus, len(nalus)) && fresh(payload)
+//@     invariant 0 <= _i && _i <= len(nalus) && fresh(payload)
+//@     invariant pos == lenagg(nalus, _i)
+//@     invariant len(payload) == lenagg(nalus, len(nalus))
 //@     invariant forall k :: 0 <= k && k < len(nalus) ==> len(nalus[k]) >= 0
 
 //@ func (e *Encoder) writeBatch
